@@ -39,6 +39,10 @@ STRENGTHENED = {
     "C13-response-init-own-piv": "missed at first; C13 gained the client-role operations Q / QP (own request answered by the peer)",
     "C14-cancel-unlocks-peer": "missed at first; C14 gained the withdrawal of a held-back request as a fault",
     "C15-maxsize-body-only": "missed at first; C15 gained the sweep over every frame size around the limit for every token length",
+    "C16-ipv4-octet-255-uri-host": "missed at first; the host alphabet gained IPv4 literals with 255 and 0 octets",
+    "C16-quote-hex-unpadded": "missed at first; the segment alphabet gained control characters below U+0010 followed by a hex digit, DEL and astral-plane text",
+    "C18-superseded-handler-untracked": "missed at first; C18 gained the scenario slow-twice (token re-used while the first handler runs) and counts running handlers",
+    "C18-empty-ack-timer-outlives-transport": "missed at first; the shutdown fault gained loop stalls after the 1st..6th iteration of the shutdown (late timers)",
     "C15-pong-skips-critical-check": "missed at first; the alphabet gained critical/elective options in Pong, Release and Abort",
 }
 
